@@ -61,7 +61,7 @@ def gen_C09(rng, tier):
                     a = rng.randint(0, d - 1); b = rng.randint(a + 1, d)
                 else:
                     a, b = rng.choice(INTS), rng.choice(INTS)
-                if rng.random() < 0.15: a, b = 0, 0
+                if rng.random() < 0.3: a, b = 0, 0
                 rl.append((a, b))
             r = p.bind('slice %s %s' % (t, ranges(rl) if rng.random() < 0.9 else 'nil')); p.add('obs %s' % r)
             # source for patch: sometimes fitting the ranges, sometimes not
@@ -70,7 +70,8 @@ def gen_C09(rng, tier):
                 if j < len(rl) and rl[j] != (0, 0) and rl[j][1] - rl[j][0] > 0 and rng.random() < 0.8:
                     sshape.append(min(rl[j][1] - rl[j][0], 6))
                 else:
-                    sshape.append(rng.randint(1, d + (1 if rng.random() < 0.1 else 0)))
+                    # omitted / {0,0} range: the source may be as large as the target, sometimes larger
+                    sshape.append(rng.choice([d, d, rng.randint(1, d), d + 1, d + 2]))
             if rng.random() < 0.1: sshape = sshape[:-1] if sshape else [1]
             src = p.tensor(sshape, [50.0 + v for v in range(prod(sshape))])
             r = p.bind('patch %s %s %s' % (t, ranges(rl), src if rng.random() < 0.95 else 'nil')); p.add('obs %s' % r)
@@ -86,10 +87,30 @@ def gen_C09(rng, tier):
         p.add('equals %s nil' % t); p.add('equals %s %s' % (t, t))
         p.tag('composite-args', 'rank%d' % len(shape))
         progs.append(p)
-    # --- binary operations over shape pairs, incl. nil
+    # --- binary operations over shape pairs, incl. nil: arbitrary pairs plus pairs related by a small edit
+    # (permuted dims, one dim replaced by 1 / increased, a dim dropped or added, leading 1)
     pairs = [(a, b) for a in shapes[:10] for b in shapes[:10]]
     rng.shuffle(pairs)
-    for pi, (sa, sb) in enumerate(pairs[:40 if tier == 'quick' else 400]):
+    pairs = pairs[:40 if tier == 'quick' else 400]
+    def variants(sh):
+        out = []
+        if len(sh) >= 2:
+            q = list(sh); rng.shuffle(q); out.append(q)
+            out.append(sh[::-1])
+            out.append(sh[1:]); out.append(sh[:-1])
+        for j in range(len(sh)):
+            q = list(sh); q[j] = 1; out.append(q)
+            q = list(sh); q[j] = sh[j] + 1; out.append(q)
+        out.append([1] + sh); out.append(sh + [1]); out.append([2] + sh)
+        return out
+    bases = [[4, 1], [1, 4], [2, 3], [3, 2], [2, 2], [2, 3, 4], [3, 2, 4], [1, 3], [3], [2, 1, 2], [1, 1], [6], [2, 3, 1]]
+    edit_pairs = []
+    for b in bases:
+        for v in variants(b):
+            edit_pairs.append((b, v)); edit_pairs.append((v, b))
+    rng.shuffle(edit_pairs)
+    pairs += edit_pairs[:60 if tier == 'quick' else len(edit_pairs)]
+    for pi, (sa, sb) in enumerate(pairs):
         p = Prog('c09_b%d' % pi)
         ta = p.tensor(sa, small_vals(prod(sa)), tracked=True)
         tb = p.tensor(sb, small_vals(prod(sb)))
@@ -273,15 +294,21 @@ def gen_C10(rng, tier):
         for m in (t, src, sl, pt): p.add('obs %s' % m)
         p.tag('entry-points', moment, 'index-mutated-between-forward-and-bp' if moment == 'before-bp' else 'index-mutated-after-bp')
         progs.append(p)
-        # Concat with a caller-owned tensor list, mutated before bp
+        # Concat with a caller-owned tensor list, mutated between the call and the back-propagation
         p = Prog('c10_c%d' % i)
         shape = rand_shape(rng, 2, 3, 1)
-        ts = [p.tensor(shape, [rng.uniform(-1, 1) for _ in range(prod(shape))], tracked=True) for _ in range(3)]
-        l = p.bind('tensors %s,%s' % (ts[0], ts[1]), 'l')
-        c = p.bind('concat $%s 0' % l)
-        p.add('settensor %s 0 %s' % (l, ts[2]))
+        dim = rng.randrange(len(shape))
+        ts = []
+        for j in range(4):
+            sh = list(shape); sh[dim] = rng.randint(1, 3)
+            ts.append(p.tensor(sh, [rng.uniform(-1, 1) for _ in range(prod(sh))], tracked=True))
+        l = p.bind('tensors %s,%s,%s' % (ts[0], ts[1], ts[2]), 'l')
+        c = p.bind('concat $%s %d' % (l, dim))
+        p.add('settensor %s %d %s' % (l, rng.randrange(3), rng.choice([ts[3], 'nil', ts[0]])))
+        if rng.random() < 0.5: p.add('settensor %s %d %s' % (l, rng.randrange(3), ts[3]))
         p.add('obs %s' % c)
-        p.add('bp %s' % c)
+        w = p.bind('mul %s %s' % (c, c))
+        p.add('bp %s' % w)
         for m in ts: p.add('obs %s' % m)
         p.tag('concat-list')
         progs.append(p)
@@ -314,5 +341,31 @@ def gen_C10(rng, tier):
         o = p.bind('sgd %s' % f2b(0.5), 'o'); p.add('upd %s %s' % (o, q))
         live.append(w); snap()
         p.tag('no-mutation-of-existing')
+        progs.append(p)
+    # (iii) programs of the other properties' generators, instrumented: after every call every tensor bound so
+    # far is observed again (the model is immutable by construction, so any in-place change shows up)
+    import fwd, grad, comp
+    pool = []
+    sub = 'quick'
+    for g in (fwd.gen_C04, fwd.gen_C06, fwd.gen_C03, fwd.gen_C05, grad.gen_C02, grad.gen_C07, comp.gen_C16, comp.gen_C13, comp.gen_C15):
+        got = g(rng, sub)
+        rng.shuffle(got)
+        pool += got[:(12 if tier == 'quick' else 150)]
+    for q in pool:
+        if len(q.lines) > 60:
+            continue
+        p = Prog('c10_i_' + q.name)
+        bound = []
+        for ln in q.lines:
+            p.add(ln)
+            toks = ln.split(' ')
+            if len(toks) > 2 and toks[1] == '=' and toks[2] not in ('ints', 'ranges', 'tensors', 'data', 'init', 'fc', 'input', 'relu', 'sigmoid',
+                    'leaky', 'softmax', 'mse', 'bce', 'ce', 'accuracy', 'sgd', 'weight', 'shape') and not (toks[2] == 'tanh' and len(toks) == 3):
+                if toks[0] not in bound: bound.append(toks[0])
+            if toks[0] in ('obs', 'equals', 'nelems', 'at') or (len(toks) > 2 and toks[2] == 'tensorof'):
+                continue
+            for b in bound[-8:]:
+                p.add('obs %s' % b)
+        p.tag('instrumented')
         progs.append(p)
     return progs
